@@ -49,6 +49,7 @@ pub fn gen_case(prop: &str, rng: &mut Rng) -> Case {
         initial: val(rng),
         audit_every_step: rng.chance(if prop == "C02" { 3 } else { 1 }, 4),
         counts: flavour == Flavour::Sync || prop == "C19",
+        adopt_unexpected_upgrade: prop == "C19",
         teardown: rng.next_u64() >> 16,
     };
     // per-run weights (swarm)
@@ -159,9 +160,10 @@ pub fn gen_case(prop: &str, rng: &mut Rng) -> Case {
             }
             11 => {
                 owner_step = false;
-                match rng.below(4) {
+                match rng.below(6) {
                     0 => Step::SubClone(j),
                     1 => Step::SubCloneReset(j),
+                    2 | 3 => Step::Park(j),
                     _ => Step::SubDrop(j),
                 }
             }
